@@ -93,6 +93,20 @@ def w_lints(direction, x, n):
     return mask, tail, sign
 
 
+class W_Arity(Module):
+    def _prepare(self, domain):
+        self.dofconn = domain.get_dofconnectivity(2)
+
+    def _response(self, a, b):
+        return a + b, a - b
+
+    def _sensitivity(self, dp, dm):
+        out = np.zeros(10)
+        out[self.dofconn] += dp[0]      # R-SCATTER: non-accumulating store through a connectivity table
+        g = dp[1:] + 1.0                # R-NULL-SEED: dp may be None
+        return out                      # R-ARITY: one entry for two inputs
+
+
 class W_Solver(LinearSolver):
     def update(self, A):
         self.A = A
